@@ -6,6 +6,7 @@ labelled digraph of the stated sizes, for every node taken as head / leaf /
 path end.
 """
 from vf import common
+from vf.models import cpulimit
 
 CHECK = dict(
     id="C27", level="exploration",
@@ -18,8 +19,9 @@ CHECK = dict(
     assumptions=["dominance is defined on the nodes reachable from the head; a head with predecessors is "
                  "dominated by itself only",
                  "the natural loop of a back edge a->b is b plus every node reaching a without b (whole graph)",
-                 "cycles_count=0 path enumeration is the set of simple paths; for cycles_count=k>0 only the "
-                 "bounds 'simple paths <= result <= walks with every node at most k+1 times' are demanded",
+                 "cycles_count=0 path enumeration is the set of simple paths; for cycles_count=k>0 only bounds are "
+                 "demanded: (walks src->dst never re-entering src, stopping at the first dst, every node at most "
+                 "k+1 times) <= result <= (walks with every node at most k+1 times)",
                  "multi-edges are not generated"],
     exhaustive={"quick": True, "thorough": True},
     timeout={"quick": 900, "thorough": 3600},
@@ -97,6 +99,8 @@ def edges_from_bits(n, bits, selfloops=True):
 
 def run_shard(params, rec):
     common.quiet()
+    from vf.models import cpulimit
+    cpulimit.install()
     from vf.models import graphdefs as gd
     rng = common.rng_for(params)
     shard, nsh = params["shard"], params.get("nshards", NSHARDS)
@@ -143,13 +147,20 @@ def run_shard(params, rec):
 
 
 class Monitor(object):
+    CALL_LIMIT = 5      # CPU seconds for one call on a graph of <= 12 nodes (normal: < 1 ms)
+
     def __init__(self, rec, gd):
         self.rec = rec
         self.gd = gd
+        self.hung = {}
 
     # -- reporting
     def bad(self, case, algo, cls, got, want, **ctx):
         key = "%s %s" % (algo, cls)
+        if self.rec._fail_per_key.get(key, 0) >= 4:
+            # already documented by 4 witnesses in this shard: count only
+            self.rec.fail(key, "")
+            return
         wit = dict(graph=case.raw, got=_j(got), want=_j(want))
         wit.update({k: _j(v) for k, v in ctx.items()})
         self.rec.fail(key, "%s on n=%d edges=%s %s: got %s, definition gives %s" % (
@@ -158,9 +169,24 @@ class Monitor(object):
     def call(self, case, algo, fn, *args, **ctx):
         """run the code under test; an exception is an observation"""
         self.rec.count("algo:" + algo)
+        if self.hung.get(algo, 0) >= 2:
+            # already reported as not terminating; do not starve the rest of the shard
+            self.rec.count("skipped_after_hangs:" + algo)
+            return False, None
         try:
-            return True, fn(*args)
+            with cpulimit.cpu_limit(self.CALL_LIMIT):
+                return True, fn(*args)
+        except cpulimit.CpuTimeout:
+            self.hung[algo] = self.hung.get(algo, 0) + 1
+            self.rec.fail("%s does not terminate (%ds CPU)" % (algo, self.CALL_LIMIT),
+                          "%s still running after %ds on n=%d edges=%s %s" % (
+                              algo, self.CALL_LIMIT, case.n, case.raw["edges"], _j(ctx)),
+                          dict(graph=case.raw, **{k: _j(v) for k, v in ctx.items()}))
+            return False, None
         except Exception as exc:
+            if self.rec._fail_per_key.get("%s raises %s" % (algo, type(exc).__name__), 0) >= 4:
+                self.rec.fail("%s raises %s" % (algo, type(exc).__name__), "")
+                return False, None
             self.rec.fail("%s raises %s" % (algo, type(exc).__name__),
                           "%s raised %r on n=%d edges=%s %s" % (algo, exc, case.n, case.raw["edges"], _j(ctx)),
                           dict(graph=case.raw, exc=repr(exc), **{k: _j(v) for k, v in ctx.items()}))
@@ -366,9 +392,14 @@ class Monitor(object):
                 elif not gset <= uset:
                     self.bad(case, algo, "cycles_count>0: returns a non-walk or a node more than k+1 times",
                              sorted(gset - uset), None, src=s, dst=d, cycles_count=walks_k)
-                elif not set(map(tuple, want)) <= gset:
-                    self.bad(case, algo, "cycles_count>0: misses a simple path", got, want, src=s, dst=d,
-                             cycles_count=walks_k)
+                else:
+                    # walks that every reading of "a node may be processed k+1 times" accepts
+                    core = set(map(tuple, gd.bounded_walks(succ, s, d, walks_k + 1, endpoints_once=True)))
+                    if len(core) > len(want):
+                        rec.count("walk_queries_with_repeated_node")
+                    if not core <= gset:
+                        self.bad(case, algo, "cycles_count>0: misses a walk that repeats no node more than k+1 "
+                                 "times", got, sorted(core - gset), src=s, dst=d, cycles_count=walks_k)
 
 
 ALGOS = ["has_loop", "scc", "wcc", "reachable_sons", "reachable_parents", "reachable_parents_stop_node",
@@ -393,7 +424,8 @@ def floors(tier, counters, evaluations):
         miss.append("family n=5: %d of %d graphs enumerated" % (
             counters.get("graphs_exhaustive:n=5_noselfloop", 0), 1 << 20))
     for k in ("heads_with_predecessors", "heads_with_unreachable_nodes", "heads_with_back_edges",
-              "nonempty_frontier", "cyclic", "acyclic", "path_queries_multiple_paths", "graphs_random"):
+              "nonempty_frontier", "cyclic", "acyclic", "path_queries_multiple_paths", "graphs_random",
+              "walk_queries_with_repeated_node"):
         if counters.get(k, 0) < 100:
             miss.append("%s seen %d times (<100)" % (k, counters.get(k, 0)))
     return miss
